@@ -362,15 +362,10 @@ func (r *runner) bind(ms modelSnap) bool {
 		eo := &epObj{id: me.Id, owner: co, up: up, ptr: ptr}
 		w.eps[me.Id], w.epPtr[ptr] = eo, eo
 		ptr.ProxyTransport = &recRT{inner: ptr.ProxyTransport, ep: eo, w: w}
-		ptr.VerifC15WrapHealthCheck(func(inner clusters.EndpointHealthCheck) clusters.EndpointHealthCheck {
-			return func(e *clusters.EndpointInfo) bool {
-				atomic.AddInt64(&eo.probeCalls, 1)
-				return inner(e)
-			}
-		})
+		eo.wrapped = wrapHealthCheck(eo)
 	}
 	// nothing on the real side the model does not know
-	for key, ptr := range clusters.VerifC15Keys(w.ctrl.Manager) {
+	for key, ptr := range r.resolved() {
 		if w.clPtr[ptr] == nil {
 			r.fail("diff", "c15.unknown-cluster", fmt.Sprintf("the manager maps %q to a ClusterInfo the model did not create", key), nil, nil)
 			ok = false
@@ -388,6 +383,26 @@ func (r *runner) bind(ms modelSnap) bool {
 	return ok
 }
 
+// resolved: what every key of the universe resolves to, through the manager's own Get (no access to its table).
+func (r *runner) resolved() map[string]*clusters.ClusterInfo {
+	out := map[string]*clusters.ClusterInfo{}
+	for _, k := range universeLower() {
+		if ptr, ok := r.w.ctrl.Get(k); ok {
+			out[k] = ptr
+		}
+	}
+	return out
+}
+
+// probeCount: probes made by this endpoint object's health-check loop; without the optional shim, /healthz arrivals at
+// its stub with its cluster's credential (which other endpoint objects of the same cluster for the same upstream share).
+func (r *runner) probeCount(eo *epObj) int64 {
+	if eo.wrapped {
+		return atomic.LoadInt64(&eo.probeCalls)
+	}
+	return int64(r.w.stubs[eo.up].probeCount(eo.owner.token))
+}
+
 func realPhase(s reqCtl) string {
 	if !s.completed {
 		switch {
@@ -400,13 +415,13 @@ func realPhase(s reqCtl) string {
 	}
 	switch {
 	case !s.reachedPrepick:
-		if s.status == 503 && strings.Contains(s.body, "is not being proxied") {
+		if s.status == 503 {
 			return "rejected"
 		}
 		return fmt.Sprintf("ended-before-dispatcher(status=%d err=%q)", s.status, s.errStr)
 	case s.picked == nil:
-		if s.status == 503 && strings.Contains(s.body, "no ready endpoints") {
-			return "noEndpoint"
+		if s.status == 503 {
+			return "noEndpoint" // refused with 503 after the cluster was resolved and before an endpoint was handed out
 		}
 		return "ended-before-pick"
 	}
@@ -415,11 +430,15 @@ func realPhase(s reqCtl) string {
 
 func expectedPhases(m mReq) []string {
 	switch m.Phase {
-	case "rejected", "resolved", "noEndpoint":
+	case "rejected":
+		// 503 and nothing proxied is what the property asks for; which filter says it (and in which words) is not
+		return []string{"rejected", "noEndpoint"}
+	case "resolved", "noEndpoint":
 		return []string{m.Phase}
 	case "proxying":
 		if m.Done {
-			return []string{"ended", "ended-before-pick"}
+			// cut — or refused (503) before the pick because the code noticed the removal even earlier: never routed
+			return []string{"ended", "ended-before-pick", "noEndpoint"}
 		}
 		return []string{"proxying"}
 	case "finished":
@@ -471,7 +490,7 @@ func (r *runner) check(i int, op Op, ms modelSnap, opEnd time.Time) {
 	}
 
 	// 1. synchronous bookkeeping: names, contexts, endpoint maps
-	keyMap := clusters.VerifC15Keys(w.ctrl.Manager)
+	keyMap := r.resolved()
 	for _, mn := range ms.Names {
 		real := -1
 		if ptr, ok := w.ctrl.Get(mn.K); ok {
@@ -486,11 +505,6 @@ func (r *runner) check(i int, op Op, ms modelSnap, opEnd time.Time) {
 			} else {
 				r.fail("diff", "c15.names", what(fmt.Sprintf("name %q: code resolves to #%d, model to #%d", mn.K, real, mn.O)), real, mn.O)
 			}
-		}
-	}
-	for k := range keyMap {
-		if !has(universeLower(), k) {
-			r.fail("diff", "c15.names", what(fmt.Sprintf("the manager holds the unexpected key %q", k)), k, nil)
 		}
 	}
 	resolvable := map[int]bool{}
@@ -586,7 +600,7 @@ func (r *runner) check(i int, op Op, ms modelSnap, opEnd time.Time) {
 				r.fail("judge", "c15.inflight-not-cut", what(fmt.Sprintf("request %d (hold=%s) is proxied to endpoint #%d which was removed / whose cluster was deleted, and is still %s after %v", mr.R, rc.hold, mr.Eid, got, bound)), impl, mr)
 			case mr.Phase == "proxying" && !mr.Done && s.completed:
 				r.fail("judge", "c15.unaffected-request-cut", what(fmt.Sprintf("request %d on endpoint #%d (not removed, cluster #%d not deleted) was terminated: %s status=%d err=%q", mr.R, mr.Eid, mr.O, got, s.status, s.errStr)), impl, mr)
-			case mr.Phase == "rejected" && (s.reachedPrepick || s.status != 503):
+			case mr.Phase == "rejected" && s.completed && (s.status != 503 || s.picked != nil || s.upSeen):
 				r.fail("judge", "c15.removed-cluster-served", what(fmt.Sprintf("request %d for host %q must be answered 503 (no cluster has that name), it is %s status=%d", mr.R, rc.host, got, s.status)), impl, mr)
 			default:
 				r.fail("diff", "c15.request-phase", what(fmt.Sprintf("request %d: code %s, model %s(done=%v)", mr.R, got, mr.Phase, mr.Done)), impl, mr)
@@ -813,14 +827,14 @@ func (r *runner) measureHC(i int, op Op, ms modelSnap, what func(string) string)
 	// live ones
 	c0 := map[*epObj]int64{}
 	for _, eo := range liveE {
-		c0[eo] = atomic.LoadInt64(&eo.probeCalls)
+		c0[eo] = r.probeCount(eo)
 		eo.ptr.TriggerHealthCheck()
 	}
 	for _, eo := range liveE {
 		r.st.liveChecks++
 		eo := eo
 		ok := waitFor(bound, func() bool {
-			if atomic.LoadInt64(&eo.probeCalls) > c0[eo] {
+			if r.probeCount(eo) > c0[eo] {
 				return true
 			}
 			eo.ptr.TriggerHealthCheck()
@@ -889,7 +903,7 @@ func (r *runner) measureHC(i int, op Op, ms modelSnap, what func(string) string)
 		r.st.deadChecks++
 		e0 := map[*epObj]int64{}
 		for _, eo := range suspects {
-			e0[eo] = atomic.LoadInt64(&eo.probeCalls)
+			e0[eo] = r.probeCount(eo)
 		}
 		t0 := tokenCount()
 		p0 := pairCount()
@@ -901,7 +915,7 @@ func (r *runner) measureHC(i int, op Op, ms modelSnap, what func(string) string)
 		time.Sleep(quiet)
 		var next []*epObj
 		for _, eo := range suspects {
-			if atomic.LoadInt64(&eo.probeCalls) > e0[eo] {
+			if eo.wrapped && r.probeCount(eo) > e0[eo] {
 				next = append(next, eo)
 			} else {
 				eo.hcLive, eo.hcMeasured = false, true
